@@ -70,6 +70,7 @@ type relVisit struct {
 type tst struct {
 	v    []string
 	done bool
+	as   map[types.Object]bool // assumed truth values of single-assignment bool variables (correlated conditions)
 }
 
 type travFn struct {
@@ -120,6 +121,13 @@ func (t *travCtx) envOf(f *travFn) *travEnv {
 					if o := c.objOf(id); o != nil {
 						e.cnt[o]++
 						e.one[o] = st.Rhs[0]
+					}
+				}
+				if len(st.Lhs) == 2 {
+					if id, ok := st.Lhs[1].(*ast.Ident); ok {
+						if o := c.objOf(id); o != nil {
+							e.cnt[o]++ // the ok / found flag of a comma-ok form
+						}
 					}
 				}
 			} else {
@@ -425,7 +433,31 @@ func (t *travCtx) paths(f *travFn, env *travEnv, list []ast.Stmt) (res [][]strin
 	type st = tst
 	var run func(list []ast.Stmt, open []st) []st
 	var finished []st
-	cp := func(s st) st { return st{append([]string{}, s.v...), s.done} }
+	cp := func(s st) st {
+		as := map[types.Object]bool{}
+		for k, v := range s.as {
+			as[k] = v
+		}
+		return st{append([]string{}, s.v...), s.done, as}
+	}
+	// condVar: the condition is a single-assignment bool variable or its negation
+	condVar := func(e ast.Expr) (types.Object, bool, bool) {
+		neg := false
+		e = unparen(e)
+		if u, ok := e.(*ast.UnaryExpr); ok && u.Op == token.NOT {
+			neg = true
+			e = unparen(u.X)
+		}
+		id, ok := e.(*ast.Ident)
+		if !ok {
+			return nil, false, false
+		}
+		o := t.c.objOf(id)
+		if o == nil || env.cnt[o] != 1 || typeStr(o.Type()) != "bool" {
+			return nil, false, false
+		}
+		return o, neg, true
+	}
 	addAll := func(open []st, alts [][]string) []st {
 		if len(alts) == 1 {
 			for i := range open {
@@ -436,7 +468,9 @@ func (t *travCtx) paths(f *travFn, env *travEnv, list []ast.Stmt) (res [][]strin
 		var out []st
 		for _, o := range open {
 			for _, a := range alts {
-				out = append(out, st{append(append([]string{}, o.v...), a...), o.done})
+				n := cp(o)
+				n.v = append(n.v, a...)
+				out = append(out, n)
 			}
 		}
 		return out
@@ -472,9 +506,26 @@ func (t *travCtx) paths(f *travFn, env *travEnv, list []ast.Stmt) (res [][]strin
 				}
 				open = addAll(open, t.visitsInExpr(f, env, x.Cond))
 				var a, b []st
+				cv, neg, isVar := condVar(x.Cond)
 				for _, o := range open {
-					a = append(a, cp(o))
-					b = append(b, cp(o))
+					if isVar {
+						if val, known := o.as[cv]; known {
+							// the same variable was tested before on this path: only the consistent branch is feasible
+							if val != neg {
+								a = append(a, cp(o))
+							} else {
+								b = append(b, cp(o))
+							}
+							continue
+						}
+					}
+					ta, tb := cp(o), cp(o)
+					if isVar {
+						ta.as[cv] = !neg
+						tb.as[cv] = neg
+					}
+					a = append(a, ta)
+					b = append(b, tb)
 				}
 				out := run(x.Body.List, a)
 				switch e := x.Else.(type) {
@@ -566,7 +617,11 @@ func (t *travCtx) loop(f *travFn, env *travEnv, body *ast.BlockStmt, open []tst,
 	// also the path that skips the loop
 	var in []tst
 	for _, o := range open {
-		in = append(in, tst{append([]string{}, o.v...), o.done})
+		as := map[types.Object]bool{}
+		for k, v := range o.as {
+			as[k] = v
+		}
+		in = append(in, tst{append([]string{}, o.v...), o.done, as})
 	}
 	before := len(*finished)
 	out := run(body.List, in)
